@@ -168,6 +168,7 @@ class Run:
         self.mc_log: list[dict] = []
         self.behaviours: dict[str, list] = {}  # tid -> ops
         self.families: dict[str, int] = {}
+        self.family_total: dict[str, int] = {}
         self.verdicts: dict[str, dict] = {}
         self.violations: list[dict] = []
         self.dev_hits: dict[str, int] = {}
@@ -243,7 +244,8 @@ class Run:
                 kw.update(action_constraint=g.get("emit", "EmitEnd"))
                 kw.pop("constraint")
                 sim = f"num={g['num']}"
-            cfg = write_cfg(f"{self.prop.id}_{g['name']}", consts, init=g.get("init", "Init"), next=g.get("next", "Next"), **kw)
+            nxt = g.get("next", "NextWalk" if mode == "walks" else "Next")
+            cfg = write_cfg(f"{self.prop.id}_{g['name']}", consts, init=g.get("init", "Init"), next=nxt, **kw)
             r = tlc.run(
                 g.get("module", self.prop.gen_module),
                 cfg,
@@ -254,18 +256,21 @@ class Run:
                 timeout=g.get("timeout", 900),
                 env=g.get("env"),
             )
-            got = 0
-            seen = set()
+            seen = {}
             for item in r.prints.get("B", []):
                 ops = item[0]
                 key = json.dumps(ops, sort_keys=True)
-                if key in seen or not ops:
-                    continue
-                seen.add(key)
-                got += 1
-                if g.get("limit") and got > g["limit"]:
-                    break
-                self.behaviours[f"{g['name']}-{got}"] = ops
+                if key not in seen and ops:
+                    seen[key] = ops
+            allb = list(seen.values())
+            total = len(allb)
+            if g.get("sample") and total > g["sample"]:
+                # seeded subset of the enumerated behaviours (quick tier); thorough replays all of them
+                allb = random.Random(self.seed * 1000003 + len(g["name"])).sample(allb, g["sample"])
+            got = len(allb)
+            for k, ops in enumerate(allb, 1):
+                self.behaviours[f"{g['name']}-{k}"] = ops
+            self.family_total[g["name"]] = total
             self.families[g["name"]] = got
             log(f"generated {g['name']}: {got} behaviours in {r.wall_s:.1f}s")
             if got == 0:
@@ -380,6 +385,7 @@ class Run:
             "random walks, pinned reproducers of known findings); distinct = distinct operation sequences; "
             "non-trivial = per-property rule (default: at least two operations)",
             "families": self.families,
+            "families_enumerated_by_tlc": self.family_total,
             "model_checks": self.mc_log,
             "known_deviation_attributions": self.dev_hits,
             "samples": [
